@@ -240,7 +240,16 @@ def history_builders():
             "data-wrappers-and-tags": data, "distributed": dist, "mixed": mixed}
 
 
+def kind_instances():
+    """[(spec name, node)] one instance of every node kind (harness.gen.kinds + the extra instances of
+    extract/eqtable), DistributedSend included; deterministic"""
+    from ..extract import eqtable
+    return [(k, sp.base) for k, sp in sorted(eqtable.all_specs().items())]
+
+
 def build(name, tier="quick"):
+    if name == "kind-instances":
+        return [(k, b, b) for k, b in kind_instances()]
     if name == "history-graphs":
         return [(lbl, g, g) for lbl, g in ((k, th()) for k, th in history_builders().items())]
     """[(label, graph, …)]"""
